@@ -75,6 +75,20 @@ func init() {
 		fmt.Printf("declaredS=%d outcome=%s ms=%.1f alloc=%d peak=%d site=%s kind=%s line=%s text=%s\n", j[0].S, r.Outcome, float64(r.Ns)/1e6, r.Alloc, r.Peak, r.Site, r.Kind, r.Line, r.Text)
 		os.Exit(0)
 	}
+	if len(os.Args) >= 7 && os.Args[1] == "c08-mct-wide" { // replay aid: vharness c08-mct-wide comps w h stages elemType → hex of the stream
+		var a [5]int
+		for k := range a {
+			a[k], _ = strconv.Atoi(os.Args[2+k])
+		}
+		fmt.Println(hx.Hex(c08MctWide(a[0], a[1], a[2], a[3], a[4], false)))
+		os.Exit(0)
+	}
+	if len(os.Args) >= 3 && os.Args[1] == "c08-mct-corr" { // development aid: only the mct-apply correspondence lines, into <dir>
+		c := hx.NewCtx("C08", 1, "quick", os.Args[2])
+		c08CorrMCT(c)
+		c.Close()
+		os.Exit(0)
+	}
 	if len(os.Args) >= 3 && os.Args[1] == "c08-corpus" { // analysis aid: print a corpus stream of the repo's encoders
 		c := hx.NewCtx("C08", 1, "quick", os.TempDir())
 		for _, sd := range c08Corpus(c) {
@@ -542,9 +556,19 @@ func c09Violation(j *c08Job, r *c08Res) (class, what string) {
 	case "j2k":
 		if l := c09J2KLayers(j.Data); l >= 256 {
 			timeClass = "c09-time-j2k-declared-layers" // t2.PacketDecoder.decodeLRCP/RLCP/RPCL/PCRL/CPRL iterate all declared layers
+		} else if c09J2KMctWork(j.Data) >= 1e9 {
+			// jpeg2000.Decoder.applyDecoderMCTBindings: stages x pixels x (collection width)^2 multiply-adds, with up to
+			// 255 stages (MCO) of up to 181 x 181 matrices — below 10^9 the transform alone cannot use up the budget
+			timeClass = "c09-time-j2k-mct-stages"
+		} else if c09J2KOneAxisOffset(j.Data) {
+			// tile / tile-component buffers sized by a grid coordinate instead of the tile-component extent
+			// (t2.NewTileDecoder clamps, TileDecoder buffers, TileAssembler)
+			timeClass = "c09-j2k-one-axis-offset"
 		} else if c09J2KGridOffset(j.Data) >= 1024 {
 			// t2.PacketDecoder.decodePacket → newCodeBlockStates / NewTagTree sized by precinctCBDimensions, which
-			// buildPrecinctOrder computes from the reference-grid origin instead of the tile-component origin
+			// buildPrecinctOrder computed from the reference-grid origin instead of the tile-component origin:
+			// repaired by 3981d09 (finding marked fixed) — the whole grid-offset family is fast now and a failure
+			// of this class is reported as a violation again
 			timeClass = "c09-j2k-grid-offset"
 		}
 	case "jpeg":
@@ -553,7 +577,7 @@ func c09Violation(j *c08Job, r *c08Res) (class, what string) {
 		}
 	}
 	memClass, oomClass := "c09-mem-"+tname, "c09-oom-"+tname
-	if timeClass == "c09-j2k-grid-offset" {
+	if timeClass == "c09-j2k-grid-offset" || timeClass == "c09-j2k-one-axis-offset" {
 		memClass, oomClass = timeClass, timeClass
 	}
 	switch r.Outcome {
@@ -583,12 +607,58 @@ func c09J2KLayers(b []byte) int {
 	return -1
 }
 
-// c09J2KGridOffset: max(XOsiz, YOsiz) of the SIZ segment (independent scan), 0 if none
+// c09J2KMctWork: stages x pixels x (widest MCC collection)^2, from an independent scan of the main header: stages = length
+// of the first MCO stage list, or the number of MCC segments if there is none
+func c09J2KMctWork(b []byte) float64 {
+	sc := c08ScanJ2K(b)
+	if len(b) < 42 || b[0] != 0xFF || b[1] != 0x4F || b[2] != 0xFF || b[3] != 0x51 {
+		return 0
+	}
+	w, h := c08Be32(b, 8)-c08Be32(b, 16), c08Be32(b, 12)-c08Be32(b, 20)
+	if w <= 0 || h <= 0 {
+		return 0
+	}
+	stages, nmcc, width := -1, 0, 0
+	for _, sg := range sc.Segs {
+		switch sg.Marker {
+		case 0x75:
+			nmcc++
+			if sg.Off+15 <= len(b) {
+				if n := c08Be16(b, sg.Off+12) & 0x7FFF; n > width {
+					width = n
+				}
+			}
+		case 0x77:
+			if stages < 0 && sg.Off+5 <= len(b) && b[sg.Off+4] > 0 {
+				stages = int(b[sg.Off+4])
+			}
+		case 0x90:
+			goto done
+		}
+	}
+done:
+	if stages < 0 {
+		stages = nmcc
+	}
+	return float64(stages) * float64(w) * float64(h) * float64(width) * float64(width)
+}
+
+// c09J2KGridOffset: min(XOsiz, YOsiz) of the SIZ segment (independent scan), 0 if none.  The known class
+// c09-j2k-grid-offset is the QUADRATIC growth of the per-precinct code-block grids, which needs BOTH image offsets
+// large; with one axis at 0 the unchanged decoder is fast, and a blow-up there must not be filed under that class.
 func c09J2KGridOffset(b []byte) int64 {
 	if len(b) < 24 || b[0] != 0xFF || b[1] != 0x4F || b[2] != 0xFF || b[3] != 0x51 {
 		return 0
 	}
-	return max(c08Be32(b, 16), c08Be32(b, 20))
+	return min(c08Be32(b, 16), c08Be32(b, 20))
+}
+
+// c09J2KOneAxisOffset: one image offset ≥ 1024 and the other below it (the X-only / Y-only family)
+func c09J2KOneAxisOffset(b []byte) bool {
+	if len(b) < 24 || b[0] != 0xFF || b[1] != 0x4F || b[2] != 0xFF || b[3] != 0x51 {
+		return false
+	}
+	return max(c08Be32(b, 16), c08Be32(b, 20)) >= 1024 && min(c08Be32(b, 16), c08Be32(b, 20)) < 1024
 }
 
 // c09CountSOF: number of frame-header segments in front of the first scan
@@ -672,6 +742,10 @@ func c09Main(c *hx.Ctx) {
 		default:
 			c.Count("alloc:<1MiB")
 		}
+		if dbg := os.Getenv("C09_TRACE_BASE"); dbg != "" && j.Base == dbg { // analysis aid
+			cl, _ := c09Violation(j, r)
+			fmt.Fprintf(os.Stderr, "trace %s %s/%s len=%d S=%d outcome=%s ns=%d alloc=%d peak=%d class=%s\n", c08Targets[j.Target].Name, j.Origin, j.Base, len(j.Data), j.S, r.Outcome, r.Ns, r.Alloc, r.Peak, cl)
+		}
 		if class, what := c09Violation(j, r); class != "" {
 			seen[class]++
 			if seen[class] <= 2 {
@@ -698,11 +772,45 @@ func c09Pass(c *hx.Ctx, jobs []c08Job, confirm int) []c08Res {
 	}
 	res := c09RunJobsWD(jobs, c09Workers(), 2500*time.Millisecond)
 	var again []int
-	per := map[int]int{}
+	// confirmation quota per (entry point, operator family): an operator whose inputs are all fast on the unchanged
+	// tree (e.g. j2k-grid-offset-x) must not lose its confirmations to a family that is known to be slow
+	per := map[string][]int{}
+	var keys []string
 	for i := range jobs {
 		if res[i].Outcome == "timeout" && jobs[i].S <= c09SMax {
-			if per[jobs[i].Target] < confirm {
-				per[jobs[i].Target]++
+			key := fmt.Sprintf("%d|%s", jobs[i].Target, jobs[i].Origin)
+			if per[key] == nil {
+				keys = append(keys, key)
+			}
+			per[key] = append(per[key], i)
+		}
+	}
+	// the killed inputs of one operator are usually ordered by growing parameter: per (entry point, operator) confirm the
+	// last one, then the first, then inwards — round-robin over the keys until 8*confirm re-runs are planned (they run in
+	// parallel: one 10 s wave).  A fixed per-key quota alone loses a genuinely slow input among spurious kills on a loaded machine.
+	budget, maxLen := 8*confirm, 0
+	for _, key := range keys {
+		if len(per[key]) > maxLen {
+			maxLen = len(per[key])
+		}
+	}
+	pick := map[int]bool{}
+	for d := 0; d < maxLen && len(pick) < budget; d++ {
+		for _, key := range keys {
+			idx := per[key]
+			if d >= len(idx) || len(pick) >= budget {
+				continue
+			}
+			if d%2 == 0 {
+				pick[idx[len(idx)-1-d/2]] = true
+			} else {
+				pick[idx[d/2]] = true
+			}
+		}
+	}
+	for _, key := range keys {
+		for _, i := range per[key] {
+			if pick[i] {
 				again = append(again, i)
 			} else {
 				res[i].Outcome = "slow>2.5s"
@@ -713,6 +821,7 @@ func c09Pass(c *hx.Ctx, jobs []c08Job, confirm int) []c08Res {
 		js := make([]c08Job, len(again))
 		for k, i := range again {
 			js[k] = jobs[i]
+			js[k].Measure = true // sample the peak heap as well: a decode may finish within 10 s and still blow the budget
 		}
 		rs := c09RunJobs(js, c09Workers())
 		for k, i := range again {
